@@ -210,6 +210,13 @@ func zzC13Get(doc yobj, key string) (v any, ok bool) {
 		return l[0], true
 	}
 
+	if key == "zz_extra" {
+		// The same unknown setting under its hard-to-write key ("nlkey").
+		if v, ok = doc[zzC13NLKey]; ok {
+			return v, true
+		}
+	}
+
 	m, name, ok := zzC13Place(doc, key)
 	if !ok {
 		return nil, false
@@ -218,6 +225,13 @@ func zzC13Get(doc yobj, key string) (v any, ok bool) {
 
 	return v, ok
 }
+
+// zzC13NLKey is the key of the deviation kind "nlkey" (Migrate.tla "nlkey:"),
+// zzC13NLKeyMark the placeholder it is marshalled as.
+const (
+	zzC13NLKey     = "\n x\n"
+	zzC13NLKeyMark = "zzrawkey-nlx-zz"
+)
 
 // zzC13Set sets or (del) removes the value at key; it reports false when the
 // parent does not exist.
@@ -540,6 +554,14 @@ func zzC13Conc(v int, devs []zzC13Dev) (doc yobj, body []byte, ok bool, err erro
 			continue
 		}
 
+		if d.D == "nlkey" {
+			// An unknown setting under a key that the encoder does not write
+			// back faithfully; the key's text is put in by hand below.
+			doc[zzC13NLKeyMark] = 7
+
+			continue
+		}
+
 		old, _ := zzC13Get(doc, d.K)
 		val, del := zzC13DevValue(d.K, d.D, old)
 		if !zzC13Set(doc, d.K, val, del) {
@@ -558,6 +580,8 @@ func zzC13Conc(v int, devs []zzC13Dev) (doc yobj, body []byte, ok bool, err erro
 	for name, text := range zzC13RawText {
 		body = bytes.ReplaceAll(body, []byte("zzraw-"+name+"-zz"), []byte(text))
 	}
+
+	body = bytes.ReplaceAll(body, []byte(zzC13NLKeyMark), []byte(`"\n x\n"`))
 
 	// The symbolic cells are evaluated against what the code really reads.
 	doc = yobj{}
@@ -926,6 +950,8 @@ func zzC13Eval(val string, in yobj) (v any, err error) {
 		return zzC13Any{}, nil
 	case "negz":
 		return 0, nil
+	case "nlkey":
+		return 7, nil
 	case "mllist":
 		return []any{zzC13ML["tabml"], "plain", zzC13ML["nlonly"], zzC13ML["nl2"], zzC13ML["leadnl"]}, nil
 	case "deg":
